@@ -40,6 +40,11 @@ CHECKS = {
    technique='stateless exploration of all thread schedules up to a preemption bound (iterative context bounding) of real threads under a sys.settrace-driven deterministic scheduler, opcode granularity in the constructor',
    text='Every schedule of two (thorough: three) real threads constructing a first store with at most 1 (thorough: 2-3) preemptions is executed on the real constructor; scheduling points at every line of store.py and every bytecode of TrajectoryStore.__init__; invariant: at most one owner thread, losers get RuntimeError, no deadlock; sequential orders included.',
    note='CPython tracing semantics trusted; bound = preemptions, executions run to completion; locks replaced by cooperative wrappers', ref='DESIGN.md §4 C20'),
+
+ 'C17': dict(cat='model_checking', engine='HIST',
+   technique='enumeration of all sequences of successful/failing flights on one real builder instance to a depth bound (undeduplicated) plus BFS deduplicated by a fingerprint of the builder attributes; differential oracle vs brand-new builder',
+   text='Every sequence of the event alphabet (valid missions, explicit starting mass, unknown airports, airport above cruise level, out-of-envelope mass, weather variants) up to the depth bound is flown on one builder per option set; each flight must be bit-identical to a fresh builder and each refusal must carry the original reason.',
+   note='50-point phases; depth 2-3 (thorough 3-4) undeduplicated, BFS to depth 3 (6); shipped performance model', ref='DESIGN.md §4 C17'),
 }
 NOT_YET = {}
 
